@@ -58,6 +58,8 @@ func TestGowpReplayC20(t *testing.T) {
 	}
 	rec(ident(), 0)
 	rec(decl(), 0)
+	rec(&ast.DeclStmt{Decl: &ast.GenDecl{Tok: token.CONST, Specs: []ast.Spec{&ast.ValueSpec{Names: []*ast.Ident{ast.NewIdent("c")}, Values: []ast.Expr{ast.NewIdent("x")}}}}}, 0)
+	rec(&ast.DeclStmt{Decl: &ast.GenDecl{Tok: token.TYPE, Specs: []ast.Spec{&ast.TypeSpec{Name: ast.NewIdent("T"), Type: ast.NewIdent("int")}}}}, 0)
 	rec(define(), 0)
 	trivial := func(a Ast) bool {
 		switch a.(type) {
